@@ -16,6 +16,19 @@ def shapes(n):
     return tuple(out)
 
 
+@lru_cache(maxsize=None)
+def full_shapes(n):
+    """full binary trees (every node has 0 or 2 children) with exactly n nodes (n odd)"""
+    if n == 1:
+        return ((None, None),)
+    out = []
+    for k in range(1, n - 1, 2):
+        for l in full_shapes(k):
+            for r in full_shapes(n - 1 - k):
+                out.append((l, r))
+    return tuple(out)
+
+
 def shapes_upto(n):
     return [s for k in range(1, n + 1) for s in shapes(k)]
 
